@@ -6,7 +6,7 @@ from fractions import Fraction
 import numpy as np
 import z3
 
-from symex import arrays, core, fakefs, sglx
+from symex import arrays, core, purity, fakefs, sglx
 from symex.core import all_, and_, implies, ite, not_, or_
 from symex.fakefs import FakePath
 from symex.harness import Case, Twin
@@ -95,8 +95,13 @@ def case_sorted_geometry(ctx, kind, n, geom_map):
     txt = sglx.imec_meta_text(kind, ent, ns="1.0", geom_map=geom_map)
     F, binp = sglx.install_recording("/d/x.imec.ap", txt)
     md = ctx.call("read_meta", spikeglx.read_meta_data, FakePath("/d/x.imec.ap.meta"))
+    import copy as _copy
+    md0 = _copy.deepcopy(md)
     thu = ctx.call("geometry_unsorted", spikeglx.geometry_from_meta, md, sort=False)
     res = ctx.call("geometry_sorted", spikeglx.geometry_from_meta, md, return_index=True, sort=True)
+    purity.oblige_untouched(ctx, "metadata_dictionary_left_untouched", {k: (v if not isinstance(v, list) else list(v)) for k, v in md.items()}, purity.snap({k: (v if not isinstance(v, list) else list(v)) for k, v in md0.items()}))
+    thu2 = ctx.call("geometry_unsorted", spikeglx.geometry_from_meta, md, sort=False)
+    purity.oblige_same_result(ctx, "second_identical_call_gives_the_same_geometry", {k: thu[k] for k in sorted(thu)}, {k: thu2[k] for k in sorted(thu2)})
     th, inds = res
     inds = [int(i) for i in inds]
     ctx.oblige("index_is_a_permutation", sorted(inds) == list(range(n)), detail={"inds": inds})
